@@ -280,6 +280,9 @@ func (n *ModelNode) WriteAt(b []byte, off int64) (int, error) {
 	if !n.open {
 		return 0, fmt.Errorf("Volume no longer exist")
 	}
+	if off < 0 || off+int64(len(b)) > n.size {
+		return 0, fmt.Errorf("model node: write [%d,%d) outside the volume (a real replica would index its block map out of range)", off, off+int64(len(b)))
+	}
 	copy(n.data[off:], b)
 	for o := off / Block; o*Block < off+int64(len(b)); o++ {
 		n.headBlk[o] = true
@@ -296,6 +299,9 @@ func (n *ModelNode) WriteAt(b []byte, off int64) (int, error) {
 func (n *ModelNode) ReadAt(b []byte, off int64) (int, error) {
 	if !n.open {
 		return 0, fmt.Errorf("Volume no longer exist")
+	}
+	if off < 0 || off+int64(len(b)) > n.size {
+		return 0, fmt.Errorf("model node: read [%d,%d) outside the volume", off, off+int64(len(b)))
 	}
 	copy(b, n.data[off:])
 	return len(b), nil
